@@ -536,6 +536,7 @@ class Cfg:
         self.p_serialize = 0.0       # chance that a class gets `void serialize() const;` (boost serialization hooks)
         self.matlab_ignore = False   # (read by streams.matlab_case) put namespaced classes on the MATLAB ignore list
         self.p_twin_arg = 0.0        # chance that an argument repeats an earlier templated argument type with other inner qualifiers
+        self.enumerators = None      # pool of enumerator names (default: ENUMERATORS)
         self.p_underscore = 0.0      # chance that an identifier (class, namespace, member, argument, enumerator name) begins with `_`
         self.p_kwlike = 0.0          # chance that a name starts with / contains a keyword of the dialect (classification, structure_t, …)
         self.p_member_template = None  # chance of a member-level template (default p_template * 0.6)
@@ -766,7 +767,7 @@ class Gen:
                 name = "%s%d" % (name.rstrip("0123456789"), self.counter)
             used.add(name)
         return Enum(rng.choice(["enum", "enum", "enum class", "enum struct"]), name,
-                    rng.sample(ENUMERATORS, rng.randint(1, 5)))
+                    rng.sample(self.cfg.enumerators or ENUMERATORS, rng.randint(1, 5)))
 
     def gen_member(self, cname, ctparams):
         rng = self.rng
@@ -1013,6 +1014,10 @@ def gen_module_inst(g: Gen, n_typedefs=None, p_bad_arity=0.03, p_missing=0.03):
                         mb.kind == 'method' and mb.name == 'serialize' for mb in d.cls.members):
                     d.cls.members.insert(rng.randint(0, len(d.cls.members)),
                                          Member('method', ret=Ret(Ty([], "void", None, False, '', True)), name="serialize", args=[], const=True))
+                    if rng.random() < 0.35:
+                        # both spellings of the serialization hook in one class: still ONE export of the class
+                        d.cls.members.insert(rng.randint(0, len(d.cls.members)),
+                                             Member('method', ret=Ret(Ty([], "void", None, False, '', True)), name="serializable", args=[], const=True))
     prev = None
     for _ in range(n_typedefs):
         if not targets:
